@@ -18,7 +18,7 @@ ASSUMPTIONS = ["the amount of an EOM drift correction is decided by C15; here it
                "Ramsey tolerance 1e-3 (emulator 1-ns discretisation observed <= 3e-5)"]
 TIERS = {"quick": dict(cases=1000, shards=8, case_timeout=180, shard_timeout=900),
          "thorough": dict(cases=16000, shards=16, case_timeout=180, shard_timeout=3000)}
-FLOORS = {"quick": {"refs_compared": 20000, "pulse_phases_checked": 2500, "explicit_shifts": 1500, "ramsey_checked": 40},
+FLOORS = {"quick": {"refs_compared": 20000, "pulse_phases_checked": 2500, "explicit_shifts": 1500, "ramsey_checked": 40, "mappable_builds_checked": 80},
           "thorough": {"refs_compared": 300000}}
 WEIGHTS = {"phase_shift": 6, "phase_shift_index": 2, "add": 10, "add_eom_pulse": 7, "target": 3, "declare_channel": 3,
            "sample": 0, "str": 0, "to_abstract_repr": 0, "build_copy": 0, "queries": 0, "measure": 0.02,
@@ -71,7 +71,13 @@ def run_case(ctx, idx, rng, tier):
         ramsey(ctx, rng, idx // stride)
         ctx.case = {"ramsey_index": idx // stride}
         return
-    dev, reg = gen.header(rng, p_builtin=0.15, max_seq=0.05, nmin=2, nmax=5, want_eom=0.5)
+    mapp = rng.random() < 0.2
+    dev, reg = gen.header(rng, p_builtin=0.15, max_seq=0.05, nmin=2, nmax=5, want_eom=0.5,
+                          **({"kind": "layout"} if mapp else {}))
+    mapping = None
+    if mapp:  # the same history on a mappable register; the references must survive the final build
+        mapping = dict(zip(reg["ids"], reg["trap_ids"]))
+        reg = {"kind": "mappable", "traps": reg["traps"], "ids": reg["ids"]}
     mon = PhaseMonitor(ctx)
     r = prog.Runner(ctx, dev, reg, [mon])
     g = gen.ProgGen(rng, dev, reg, r.chspecs, weights=WEIGHTS, same_phase=0.2)
@@ -80,4 +86,41 @@ def run_case(ctx, idx, rng, tier):
         ev = r.step(op)
         g.update(op, ev.exc is None and ev.stage == "call")
     r.finish()
+    if mapping is not None and not mon.tainted and r.seq._building:
+        check_mappable_build(ctx, r, mon, mapping)
     ctx.sample(r.prog)
+
+
+def check_mappable_build(ctx, r, mon, mapping) -> None:
+    """build(qubits=...) replays the recorded calls on the concrete register: the result carries the same
+    references (the monitor's shadow sums) and the same pulses as the sequence it was built from."""
+    import warnings
+
+    from vmon.phasemon import wrap_diff
+    from vmon.snap import snapshot, timeline_diff
+
+    try:
+        with warnings.catch_warnings():
+            warnings.simplefilter("ignore")
+            built = r.seq.build(qubits=mapping)
+    except Exception as e:
+        ctx.gray("mappable-build-refused:" + type(e).__name__)
+        return
+    ctx.count("mappable_builds_checked")
+    byname = {str(q): q for q in built.register.qubit_ids}
+    for b, d in mon.shadow.items():
+        for q, want in d.items():
+            if q not in byname:
+                continue
+            got = float(built.current_phase_ref(byname[q], b))
+            ctx.count("refs_compared_after_mappable_build")
+            if want % (2 * math.pi) > 1e-9:
+                ctx.count("nonzero_refs_compared_after_mappable_build")
+            if wrap_diff(got, want) > 1e-9:
+                ctx.violation("mappable-build-ref", f"after build(qubits=...) the reference of {q} in {b} is {got}, the "
+                              f"shifts applied sum to {want % (2 * math.pi)}", "mappable-build-ref", case=r.prog)
+                return
+    d = timeline_diff(snapshot(r.seq), snapshot(built), tol=1e-12, check_flags=False)
+    if d:
+        ctx.violation("mappable-build-timeline", f"build(qubits=...) changed the timeline / phases: {d[:3]}",
+                      "mappable-build-timeline", case=r.prog)
